@@ -54,6 +54,8 @@ type vfc15Run struct {
 	panicSite  string
 	hang       string
 	stacks     string
+	mixed      string // probe: a reader holding the read lock saw metadata and derived lists of different states
+	nProbes    int64
 }
 
 func vfc15ErrName(err error) string {
@@ -240,6 +242,9 @@ func (run *vfc15Run) step(actor, phase string, st *vfc15Step) {
 	default:
 		rec := &vfc15OpRec{Actor: actor, Phase: phase, Step: *st}
 		rec.S = run.net.stamp()
+		if st.Op == "downSeeds" {
+			st = &vfc15Step{Op: "downSeeds", Topics: run.c.Seeds}
+		}
 		run.sim.vfc15Mutate(st)
 		run.end(rec)
 	}
@@ -295,6 +300,14 @@ func (run *vfc15Run) script() {
 				}
 			}()
 		}
+		if ic, ok := cl.(*client); ok {
+			wg.Add(1)
+			go func() {
+				defer wg.Done()
+				defer run.recoverPanic()
+				run.probe(ic, &stop)
+			}()
+		}
 		for i := range c.StepsB {
 			run.step("main", "B", &c.StepsB[i])
 		}
@@ -309,6 +322,62 @@ func (run *vfc15Run) script() {
 	crec.Ans.Err = vfc15ErrName(cl.Close())
 	run.end(crec)
 	run.cl = nil
+}
+
+// probe is a reader like any other: it takes the client's read lock, as every read path does, and looks at the
+// partition metadata and the derived partition lists together. Whatever a reader can see while it holds the lock must be
+// one state: the lists of every stored topic are exactly the sorted ids (all / not LeaderNotAvailable) of its metadata.
+// The public API never returns both in one call, so two API calls can show the same mixture only in a window of
+// nanoseconds; the probe makes that window observable.
+func (run *vfc15Run) probe(ic *client, stop *int32) {
+	for n := 0; atomic.LoadInt32(stop) == 0; n++ {
+		ic.lock.RLock()
+		msg := ""
+		if ic.metadata != nil {
+			for name, parts := range ic.metadata {
+				lists, ok := ic.cachedPartitionsResults[name]
+				if !ok {
+					msg = fmt.Sprintf("topic %q has partition metadata but no derived partition lists", name)
+					break
+				}
+				var all, wr []int32
+				for id, pm := range parts {
+					all = append(all, id)
+					if pm.Err != ErrLeaderNotAvailable {
+						wr = append(wr, id)
+					}
+				}
+				sort.Slice(all, func(a, b int) bool { return all[a] < all[b] })
+				sort.Slice(wr, func(a, b int) bool { return wr[a] < wr[b] })
+				if !vfc15EqIDs(all, lists[allPartitions]) || !vfc15EqIDs(wr, lists[writablePartitions]) {
+					msg = fmt.Sprintf("topic %q: partition metadata has ids %v (writable %v) while the derived lists say %v (writable %v)", name, all, wr, lists[allPartitions], lists[writablePartitions])
+					break
+				}
+			}
+			if msg == "" {
+				for name := range ic.cachedPartitionsResults {
+					if _, ok := ic.metadata[name]; !ok {
+						msg = fmt.Sprintf("derived partition lists exist for topic %q which has no partition metadata", name)
+						break
+					}
+				}
+			}
+		}
+		ic.lock.RUnlock()
+		atomic.AddInt64(&run.nProbes, 1)
+		if msg != "" {
+			run.mu.Lock()
+			if run.mixed == "" {
+				run.mixed = msg
+			}
+			run.mu.Unlock()
+			return
+		}
+		runtime.Gosched()
+		if n%16 == 15 {
+			time.Sleep(20 * time.Microsecond)
+		}
+	}
 }
 
 func (run *vfc15Run) recoverPanic() {
